@@ -1,6 +1,8 @@
 //! algebra-mc: bounded-exhaustive model checking harness for arkworks-rs/algebra.
 #![allow(clippy::all)]
 pub mod core;
+pub mod fpaccess;
 pub mod refmodel;
 pub mod seq;
+pub mod shipped;
 pub mod toy;
